@@ -114,6 +114,11 @@ class TimerMonitor(netsim.Monitor):
         #                       ack-eliciting packet sent, independent PTO then)
         self.seen_dgrams = {"c": set(), "s": set()}
 
+    def before_api(self, w, ep, name):
+        if name == "close" and ep.terminated is None and not _end_states(ep.conn):
+            self.close_called = getattr(self, "close_called", {})
+            self.close_called.setdefault(ep.name, (w.now, independent_pto(ep.conn)))
+
     def on_deliver(self, w, ep, d, addr):
         self.last_rx[ep.name] = w.now
         # a duplicate of a datagram already delivered is not activity
@@ -172,6 +177,12 @@ class TimerMonitor(netsim.Monitor):
                             "%s: get_timer() returned %r in state %s after %s"
                             % (name, timer, conn._state.name, cause))
         closing_now = _end_states(conn)
+        cc = getattr(self, "close_called", {}).get(name)
+        if cc is not None and not closing_now:
+            raise Violation({"monitor": "close.not_started_after_close_call"},
+                            "%s: close() was called at %.6f but after %s the connection is still %s and names "
+                            "deadline %.6f (3 PTO would be %.6f)"
+                            % (name, cc[0] - w.t0, cause, conn._state.name, timer - w.t0, cc[0] + 3 * cc[1] - w.t0))
         if closing_now and name not in self.closing:
             pto = independent_pto(conn)
             self.closing[name] = (w.now, pto)
